@@ -294,6 +294,39 @@ impl RawConnection {
         if !write_coalescing {
             config.write_coalescing_delay = None;
         }
+        Self::spawn_with_config(stream, config)
+    }
+
+    /// Like `spawn` (no event sender), with the write-coalescing arm chosen explicitly:
+    /// `None` = `write_coalescing_delay: None`; `Some(0)` = `SmallNondeterministic`;
+    /// `Some(ms)` = `Milliseconds(ms)`.
+    pub fn spawn_with_coalescing<S>(
+        stream: S,
+        keepalive_interval: Option<Duration>,
+        keepalive_timeout: Option<Duration>,
+        coalescing_ms: Option<u64>,
+    ) -> (Self, oneshot::Receiver<String>)
+    where
+        S: AsyncRead + AsyncWrite + Send + 'static,
+    {
+        let mut config = host_connection_config();
+        config.keepalive_interval = keepalive_interval;
+        config.keepalive_timeout = keepalive_timeout;
+        config.write_coalescing_delay =
+            coalescing_ms.map(|ms| match std::num::NonZeroU64::new(ms) {
+                None => WriteCoalescingDelay::SmallNondeterministic,
+                Some(ms) => WriteCoalescingDelay::Milliseconds(ms),
+            });
+        Self::spawn_with_config(stream, config)
+    }
+
+    fn spawn_with_config<S>(
+        stream: S,
+        config: HostConnectionConfig,
+    ) -> (Self, oneshot::Receiver<String>)
+    where
+        S: AsyncRead + AsyncWrite + Send + 'static,
+    {
         let (sender, receiver) = mpsc::channel(1024);
         let (error_sender, error_receiver) = tokio::sync::oneshot::channel();
         let (orphan_notification_sender, orphan_notification_receiver) = mpsc::unbounded_channel();
